@@ -18,4 +18,8 @@ ShapesRW == { <<KM("w", "w"), KM("r", "w"), KM("w", "n")>>,
               <<KM("w", "n"), KM("r", "r"), KM("n", "w")>>,
               <<KM("r", "w"), KM("r", "r"), KM("w", "w")>>,
               <<KM("w", "n"), KM("n", "w"), KM("r", "r")>> }
+\* N = 4: an owner of both keys, two pure readers of one key, then a task that reads one key and writes the other
+ShapesSameOwner == { <<KM("w", "w"), KM("n", "r"), KM("n", "r"), KM("r", "w")>>,
+                     <<KM("w", "w"), KM("r", "n"), KM("n", "r"), KM("r", "w")>>,
+                     <<KM("w", "w"), KM("n", "r"), KM("r", "w"), KM("n", "r")>> }
 =============================================================================
